@@ -102,7 +102,7 @@ prop(
 prop(
     "C04",
     "exploration",
-    "voices = the bundled voice (every corpus line in the thorough tier, a slice in quick, plus field-recombined labels) and generated voices over {1..7 states, 2/3 streams, vector lengths, 9 window sets, trees in ascending or descending state order, -0.0 means, ALPHA also outside [0,1], tree depth 0..4 incl. single-leaf trees (which may name any PDF of a table that holds more PDFs than the tree uses), 10 window sets also with zero-padded static windows, GAMMA / LN_GAIN spelled out or left out for the mel-cepstral filter in every option order, quoted/unquoted/mixed leaf names, questions sampled from the bundled voice's 783 questions incl. the 3 regex-fallback ones forced at the root}; for every (label, state, model in duration/streams/GV) the Gaussians returned by the public Model API must be bit-equal to the float32 entries selected by the independent reader's tree walk with the wildcard matcher; header fields, options, window coefficients and engine defaults compared exactly; non-trivial = a lookup that traverses >= 2 internal nodes with >= 1 'yes'; distinct by (voice, model, tree, leaf)",
+    "voices = the bundled voice (every corpus line in the thorough tier, a slice in quick, plus field-recombined labels) and generated voices over {1..7 states, 2/3 streams, vector lengths, 9 window sets, trees in ascending or descending state order, -0.0 means, ALPHA also outside [0,1], tree depth 0..4 incl. single-leaf trees and trees in which two branches name the same PDF (which may name any PDF of a table that holds more PDFs than the tree uses), 10 window sets also with zero-padded static windows, GAMMA / LN_GAIN spelled out or left out for the mel-cepstral filter in every option order, quoted/unquoted/mixed leaf names, questions sampled from the bundled voice's 783 questions incl. the 3 regex-fallback ones forced at the root}; for every (label, state, model in duration/streams/GV) the Gaussians returned by the public Model API must be bit-equal to the float32 entries selected by the independent reader's tree walk with the wildcard matcher; header fields, options, window coefficients and engine defaults compared exactly; non-trivial = a lookup that traverses >= 2 internal nodes with >= 1 'yes'; distinct by (voice, model, tree, leaf)",
     [st("checked")],
     [st("checked"), st("asan", name="asan", args=["--sub", "synthetic", "--scale", "0.25"], env=ASAN_ENV, canary="asan", death_is_violation=True)],
     ["gamma stage and log-gain flag of the engine are read from Condition's Debug output (no public getter)", "generator ground truth and independent reader are cross-checked for every generated voice"],
@@ -119,7 +119,7 @@ prop(
 prop(
     "C10",
     "exploration",
-    "voice sets of 1..4: bundled + PDF-perturbed copies, identical copies, generated voices with equal metadata but different trees; dyadic weight vectors (k/64, exact sum 1) on the simplex, vertices, and with negative / over-unity components, set independently for duration, each stream and each GV; every duration / stream / GV Gaussian from the public Models API compared with the weighted average of the per-voice Gaussians within 8 eps * sum|terms|; vertex weights: parameters and waveform bit-equal to the first voice; interior weights end to end: the engine's hooked trajectories equal the public building blocks run on the weighted model (<= 1e-9) and its durations those of the weighted duration model, also when every stream's parameter weights are one vertex while duration and GV weights are interior; each generated voice of a set lists its trees in its own order; non-trivial = >= 2 voices whose selected Gaussians differ and a non-vertex weight",
+    "voice sets of 1..4: bundled + PDF-perturbed copies, identical copies, generated voices with equal metadata but different trees (also the same voice object listed twice in a row, and a copy of the first voice that carries another voice's duration model); dyadic weight vectors (k/64, exact sum 1) on the simplex, vertices, and with negative / over-unity components, set independently for duration, each stream and each GV; every duration / stream / GV Gaussian from the public Models API compared with the weighted average of the per-voice Gaussians within 8 eps * sum|terms|; vertex weights: parameters and waveform bit-equal to the first voice; interior weights end to end: the engine's hooked trajectories equal the public building blocks run on the weighted model (<= 1e-9) and its durations those of the weighted duration model, also when every stream's parameter weights are one vertex while duration and GV weights are interior; each generated voice of a set lists its trees in its own order; non-trivial = >= 2 voices whose selected Gaussians differ and a non-vertex weight",
     [st("checked")],
     [st("checked"), st("release")],
 )
@@ -156,7 +156,7 @@ prop(
 prop(
     "C17",
     "exploration",
-    "forms: &[&str], &[String], Vec<String>, &[String; N] (N in 1..8), with blank lines, with 100 ns time stamps and float-spelled times (1e400, inf, NaN, -1) while alignment is off, also blank-line-first + stamped and alternating stamped/plain lines, all compared bit-for-bit with the parsed-label form; time-stamped strings with alignment ON and frame periods that do not divide the rate, judged by C09's exact alignment law; corruptions of corpus lines (21 kinds, incl. trailing whitespace, a byte order mark in front of an entry the ideographic space U+3000 where a separator is expected, and line terminators inside an entry: chunk deletion/duplication, symbol substitution, unicode insertion, truncation, extra spaces, one time only, two times without label, unparsable times, trailing token, 10k characters, random ASCII, long multi-byte text with 0/1/2 spaces and ASCII prefixes of every length) must give Ok or Err, never a panic; non-trivial = form comparison done / corruption rejected by jlabel's parser",
+    "forms: &[&str], &[String], Vec<String>, &[String; N] (N in 1..8), with blank lines, with 100 ns time stamps and float-spelled times (1e400, inf, NaN, -1) while alignment is off, also blank-line-first + stamped and alternating stamped/plain lines, all compared bit-for-bit with the parsed-label form; time-stamped strings with alignment ON and frame periods that do not divide the rate and one label in five shorter than its states, judged by C09's exact alignment law; corruptions of corpus lines (21 kinds, incl. trailing whitespace, a byte order mark in front of an entry the ideographic space U+3000 where a separator is expected, and line terminators inside an entry: chunk deletion/duplication, symbol substitution, unicode insertion, truncation, extra spaces, one time only, two times without label, unparsable times, trailing token, 10k characters, random ASCII, long multi-byte text with 0/1/2 spaces and ASCII prefixes of every length) must give Ok or Err, never a panic; non-trivial = form comparison done / corruption rejected by jlabel's parser",
     [st("checked", death_is_violation=True)],
     [st("checked", death_is_violation=True), st("asan", name="asan", args=["--sub", "corruptions", "--scale", "0.1"], env=ASAN_ENV, canary="asan", death_is_violation=True)],
 )
@@ -191,7 +191,7 @@ prop(
 prop(
     "C03",
     "exploration",
-    "(1) sequential programs over {synthesize(u), clone().synthesize(u), open/step/finish/drop live generators, read all getters} on one engine, every output compared bit-for-bit with the same (voice file, condition values, labels) synthesized on a freshly loaded engine; (2) pairs of engines driven to the same final condition through different setter histories (junk, out-of-range values, rejected weight updates first); (3) k in {2,4,8,16} threads sharing one &Engine, random programs over 6 utterances with randomised delays between calls, every call logged {thread, op, utterance, t_call, t_return, hash} and compared with the single-threaded fresh-engine hash; the concurrent workload repeated under ThreadSanitizer (std rebuilt) and, in the thorough tier, a tiny-voice variant with a regex-fallback question under Miri with different scheduler seeds; compile-time Send+Sync assertion. non-trivial = a call that overlapped another call on the same engine (distinct overlap signatures), or a sequential program interleaving >= 2 utterances with a live generator",
+    "(1) sequential programs over {synthesize(u), clone().synthesize(u), open/step/finish/drop live generators, read all getters} on one engine, every output compared bit-for-bit with the same (voice file, condition values, labels) synthesized on a freshly loaded engine; (2) pairs of engines driven to the same final condition through different setter histories (junk, out-of-range values, rejected weight updates first); (3) k in {2,4,8,16} threads sharing one &Engine, random programs over 6 utterances with randomised delays between calls, every call logged {thread, op, utterance, t_call, t_return, hash} and compared with the single-threaded fresh-engine hash; the concurrent workload repeated under ThreadSanitizer (std rebuilt) and, in the thorough tier, a tiny-voice variant with a regex-fallback question under Miri with different scheduler seeds; (4) a setting changed while a generator for the same utterance is alive: the next synthesis equals a fresh engine given the final settings and the live generator finishes under the settings it was opened with; compile-time Send+Sync assertion. non-trivial = a call that overlapped another call on the same engine (distinct overlap signatures), or a sequential program interleaving >= 2 utterances with a live generator",
     [
         st("checked", env={"JBV_WATCHDOG_S": "300"}),
         st("tsan", name="tsan", args=["--sub", "concurrent", "--scale", "0.5"], env=TSAN_ENV, canary="tsan", death_is_violation=True, shards=8),
